@@ -32,3 +32,8 @@ CASES += [
          "        if not hasattr(self, \"_fcm\"):\n            self._fcm = {}\n        if (id(state1), id(state2)) in self._fcm:\n            return self._fcm[(id(state1), id(state2))]\n        res = 1.0\n        for kk in range(len(sta1)):\n            smod1 = sta1[kk]", 1),
         (A, "            res = res*rs\n\n        return res", "            res = res*rs\n\n        self._fcm[(id(state1), id(state2))] = res\n        return res", 1)]},
 ]
+
+CASES += [
+    {"name": "full exciton model: inter-band branch never taken", "kind": "mutant", "rule": "C10-C", "edits": [
+        (A, "                elif (numpy.abs(es1.band - es2.band) == 2) and full:", "                elif (numpy.abs(es1.band - es2.band) == 2) and full and False:", 1)]},
+]
